@@ -299,7 +299,26 @@ func genC15(rng *hx.Rng, tier string, w *hx.Writer) error {
 		}
 	}
 	// (f) the writer
-	for _, l := range []int{0, 1, 2, 255, 256, 65535, 65536, limit - 1, limit, limit + 1} {
+	wlens := []int{0, 1, 2, 255, 256, 65535, 65536, limit - 1, limit, limit + 1}
+	seenW := map[int]bool{}
+	for _, l := range wlens {
+		seenW[l] = true
+	}
+	// every payload length within 5 of a power of two (a frame is the payload plus 4 header bytes:
+	// whatever buffer the writer uses, its boundary falls into one of these neighbourhoods)
+	kmax := uint(16)
+	if tier == "thorough" {
+		kmax = 20
+	}
+	for k := uint(2); k <= kmax; k++ {
+		for d := -5; d <= 5; d++ {
+			if l := 1<<k + d; l >= 0 && l <= limit && !seenW[l] {
+				seenW[l] = true
+				wlens = append(wlens, l)
+			}
+		}
+	}
+	for _, l := range wlens {
 		if tier == "quick" && l > 70000 && l < limit-1 {
 			continue
 		}
